@@ -73,6 +73,11 @@ def gen(ctx):
                0x10400, 0x10428, 0x13A0, 0xAB70, 0x13F8, 0x13F0, 0x1F80, 0x1F88, 0xFB03, 0x20, 0x31, 0x4E00, 0x1F600, 0x7F, 0x80, 0x7FF, 0x800, 0xFFFF, 0x10000]
     def rs(n):
         return [r.choice(folds) if r.random() < 0.2 else r.choice(letters) for _ in range(n)]
+    def with_nul(s):
+        """U+0000 is a valid code point of a GPString; wcscoll() cannot see past it, so not under collation"""
+        if s and r.random() < 0.15:
+            s = list(s); s.insert(r.randrange(len(s) + 1), 0)
+        return s
     def variant(s):
         k = r.random()
         if k < 0.25: return list(s)
@@ -90,6 +95,8 @@ def gen(ctx):
         loc = r.choice(["-", "-", "en", "tr", "az"])
         fl = r.choice(flagsets)
         if "c" in fl: loc = "-"                   # collation only in the C.UTF-8 default locale
+        if "c" not in fl:
+            a = with_nul(a); b = with_nul(b) if r.random() < 0.5 else (a[:a.index(0) + 1] + b if 0 in a else b)
         strs = [hx(CR.enc(x)) for x in (a, b, c)]
         lines = ["cf cmp %s %s %s %s" % (fl, loc, x, y) for x in strs for y in strs]
         cases.append(lines)
